@@ -407,6 +407,15 @@ def gen_modules(tier, safe_modules, transitive):
         deps = transitive.get(m, [])
         kinds_t = ["py", "pkg", "pyc", "so"] if tier == "quick" else ["py", "pkg", "pyc", "pkgpyc", "nsdir", "pylink", "so", "soabi"]
         pick = deps if tier != "quick" else [deps[(i + j * 3) % len(deps)] for j in range(min(3, len(deps)))]
+        # loaded modules the repaired test cannot name: not identifiers, or not in sys.stdlib_module_names - always planted
+        import sys as _sys
+        outside = [d for d in deps if not (d.isidentifier() and d in getattr(_sys, "stdlib_module_names", ()))]
+        for dep in outside:
+            for kind in ("py", "soabi"):
+                ops = [("d", "w"), ("d", "home"), ("f", "w/x.py", safe_src((m,)))] + nb_ops("w", dep, kind, f"tr.real.{kind}.{dep}")
+                cases.append(Case("modules", {"module": m, "dep": dep, "nb": kind, "rel": "transitive", "outside_table": True}, ops, "python3 x.py", "w",
+                                  ["python3", "x.py"]))
+        pick = [d for d in pick if d not in outside]
         for j, dep in enumerate(dict.fromkeys(pick)):
             for kind in (kinds_t if tier != "quick" else [kinds_t[(i + j) % len(kinds_t)], "py"]):
                 role = f"tr.real.{kind}.{dep}"
@@ -1024,6 +1033,18 @@ def _run_env(out, H, AN, cfg, scratch_root, tier, rng, replay, model, dump, deco
                     n_an += 1
                     if ma is not None and (ma == "1") != ia:
                         disagree("PyEnv.analyze_path <-> analyze_python_file", c, path=e[0], model=ma, impl=ia)
+        # (d') local_shadow on every directory of every distinct layout, as typed and through directory links
+        n_ls = 0
+        for root_, (ent_, fst_) in list(fs_cache.items()):
+            for e in ent_:
+                if not e[0].startswith(root_) or e[1] not in ("d", "l", "f"):
+                    continue
+                il = H.local_shadow(Path(e[0])) is not None
+                ml = fm.call("py_fs_local_shadow", fst_, e[0])
+                n_ls += 1
+                if ml is not None and (ml == "1") != il:
+                    out.disagreements.append({"correspondence": "PyEnv.local_shadow <-> python.local_shadow", "path": e[0].replace(root_, "{R}"),
+                                              "model": ml, "impl": il, "listing": sorted(os.listdir(e[0])) if os.path.isdir(e[0]) else None})
         # (e) the specification py_syspath0 against the real interpreter: same layouts, every script replaced by a probe
         probe_cases = [c for c in cases if c.family == "access" and c.dims.get("nb") == "none"] + path_cases[::max(1, len(path_cases) // 150)]
         for xo in (["-P"], ["-BI"], ["-W", "-P"], ["-WI"], ["-X", "-I"], ["--check-hash-based-pycs", "always", "-P"], ["-E", "-s"], ["-IP"], ["-bP"]):
@@ -1069,7 +1090,7 @@ def _run_env(out, H, AN, cfg, scratch_root, tier, rng, replay, model, dump, deco
                 if msx is not None and (msx == "1") != isx:
                     out.disagreements.append({"correspondence": "PyEnv.suffix_ok <-> Path.suffix in ('.py', '.pyw')", "name": name, "model": msx, "impl": isx})
         lap("model_correspondence")
-        cov["model_correspondence"] = {"classify_fs": n_cls, "realpath": n_rp, "os_stat": n_st, "analyze_python_file": n_an,
+        cov["model_correspondence"] = {"classify_fs": n_cls, "realpath": n_rp, "os_stat": n_st, "analyze_python_file": n_an, "local_shadow": n_ls,
                                        "syspath0_spec_vs_cpython": n_sp, "suffix": n_sx,
                                        "tokens_continuing_after_a_symlink_loop_left_to_the_oracles": n_skipped_loop}
     return cov
